@@ -418,3 +418,54 @@ func VerifNodes(tx *Transaction, key string) []*Node[model.File] {
 	}
 	return out
 }
+
+// VerifH18d: a recycled Transaction. One core.Transaction object lives through three lifetimes
+// (it is cleared in between, as the transaction pool of the use case does with it); in each it
+// receives versions of 1-3 distinct keys. In every lifetime every key has a version store of its
+// own: lookups return that key's versions only, and the file pool of the transaction stays sound.
+func VerifH18d() {
+	var tx Transaction
+	keys := []string{"p", "q", "r"}
+	nextID := 0
+	for life := 0; life < 3; life++ {
+		nk := 1 + nd.Choice("keys-in-this-lifetime", 3)
+		type ver struct {
+			seq sequence.Seq
+			id  string
+		}
+		last := make([]ver, nk)
+		for round := 0; round < 2; round++ {
+			for i := 0; i < nk; i++ {
+				s := sequence.Seq(uint64(100*life + 10*round + i + 1))
+				id := verifIDs[nextID%len(verifIDs)]
+				nextID++
+				node := new(Node[model.File])
+				node.SetV(model.File{Key: keys[i], TxId: "t", ContentId: id, Seq: s})
+				tx.PushBack(node)
+				last[i] = ver{s, id}
+			}
+		}
+		var live []*file
+		for i := 0; i < nk; i++ {
+			f := tx.File(keys[i])
+			nd.Assert(f != nil, "H18d.file-present")
+			if f == nil {
+				return
+			}
+			for j := 0; j < i; j++ {
+				nd.Assert(tx.File(keys[j]) != f, "H18d.two-keys-share-one-version-store")
+			}
+			live = append(live, f)
+			got := f.Latest()
+			nd.Assert(nd.And(got.Key == keys[i], got.Seq == last[i].seq, got.ContentId == last[i].id), "H18d.latest-of-own-key")
+			lb := f.LastBefore(last[i].seq)
+			nd.Assert(nd.And(lb.Key == keys[i], lb.Seq == last[i].seq-10), "H18d.lastbefore-of-own-key")
+		}
+		nd.Assert(tx.Len() == nk, "H18d.key-count")
+		nd.Assert(VerifPoolSound(&tx.pool, live), "H18d.file-pool-holds-a-live-store")
+		tx.Clear()
+		nd.Assert(tx.Len() == 0, "H18d.cleared")
+		nd.Assert(VerifPoolSound(&tx.pool, nil), "H18d.file-pool-holds-a-store-twice")
+	}
+	nd.Reach("H18d.end")
+}
